@@ -21,7 +21,7 @@ VARIABLES l,      \* next line to consume (outside a block)
 Trace == ndJsonDeserialize("trace.ndjson")
 Last == Trace[l - 1]
 tvars == <<vars, l, blk, acc>>
-NoBlk == [on |-> FALSE, base |-> 0, n1 |-> 0, n2 |-> 0, p1 |-> 0, p2 |-> 0]
+NoBlk == [on |-> FALSE, base |-> 0, n1 |-> 0, n2 |-> 0, p1 |-> 0, p2 |-> 0, ins1 |-> FALSE, ins2 |-> FALSE]
 
 TInit == Init /\ l = 1 /\ blk = NoBlk /\ acc = NoMsgs /\ TLCSet(1, 0)
 
@@ -60,24 +60,36 @@ Reset == /\ Is("Reset")
                                     val |-> IF kd \in {"zeroamt", "keysend"} THEN 0 ELSE V]]
          /\ htlc' = [c \in C |-> NoHtlc]
          /\ sub' = {} /\ timer' = {} /\ setOwner' = [s \in Sets |-> 0]
-         /\ height' = 0 /\ now' = 0
+         /\ height' = 0 /\ now' = 0 /\ pend' = {}
          /\ last' = [a |-> "init", c |-> 0, k |-> 0, res |-> "none", why |-> "", alt |-> "", hodl |-> NoMsgs]
          /\ blk' = NoBlk /\ acc' = NoMsgs
 
 Par == /\ Is("Par")
-       /\ blk' = [on |-> TRUE, base |-> l + 1, n1 |-> Trace[l].n1, n2 |-> Trace[l].n2, p1 |-> 0, p2 |-> 0]
+       /\ blk' = [on |-> TRUE, base |-> l + 1, n1 |-> Trace[l].n1, n2 |-> Trace[l].n2, p1 |-> 0, p2 |-> 0,
+                 ins1 |-> FALSE, ins2 |-> FALSE]
        /\ acc' = NoMsgs
        /\ UNCHANGED vars
 
-\* one link takes its next call
-Link(t) == /\ blk.on
-           /\ IF t = 1 THEN blk.p1 < blk.n1 ELSE blk.p2 < blk.n2
-           /\ LET r == Trace[IF t = 1 THEN blk.base + blk.p1 ELSE blk.base + blk.n1 + blk.p2] IN
-              /\ Event(r)
-              /\ ResOK(last', r)
-              /\ acc' = [d \in C |-> IF last'.hodl[d].kd # "none" THEN last'.hodl[d] ELSE acc[d]]
-              /\ \A d \in C : last'.hodl[d].kd # "none" => acc[d].kd = "none"
-           /\ blk' = IF t = 1 THEN [blk EXCEPT !.p1 = @ + 1] ELSE [blk EXCEPT !.p2 = @ + 1]
+\* one link takes its next call, or - for a keysend call - one of its two critical sections
+Link(t) ==
+  /\ blk.on
+  /\ IF t = 1 THEN blk.p1 < blk.n1 ELSE blk.p2 < blk.n2
+  /\ LET r   == Trace[IF t = 1 THEN blk.base + blk.p1 ELSE blk.base + blk.n1 + blk.p2]
+         p   == POf(r)
+         ins == IF t = 1 THEN blk.ins1 ELSE blk.ins2
+         ks  == r.a \in {"Notify", "Replay"} /\ htlc[r.c] = NoHtlc /\ r.pl = "keysend"
+     IN \/ /\ ks /\ ~ins /\ height = r.ht /\ ~KsBad(p)           \* processKeySend inserted the invoice
+           /\ inv' = KsIns(p)
+           /\ last' = [a |-> "KsInsert", c |-> r.c, k |-> 0, res |-> "none", why |-> "", alt |-> "", hodl |-> NoMsgs]
+           /\ blk' = IF t = 1 THEN [blk EXCEPT !.ins1 = TRUE] ELSE [blk EXCEPT !.ins2 = TRUE]
+           /\ UNCHANGED <<kinds, htlc, sub, timer, setOwner, height, now, pend, acc, l>>
+        \/ /\ IF ks /\ ins
+                THEN height = r.ht /\ Commit(LockedOut(inv, p), "Notify", r.c, 0) /\ UNCHANGED <<height, now, pend>>
+                ELSE Event(r)
+           /\ ResOK(last', r)
+           /\ acc' = [d \in C |-> IF last'.hodl[d].kd # "none" THEN last'.hodl[d] ELSE acc[d]]
+           /\ \A d \in C : last'.hodl[d].kd # "none" => acc[d].kd = "none"
+           /\ blk' = IF t = 1 THEN [blk EXCEPT !.p1 = @ + 1, !.ins1 = FALSE] ELSE [blk EXCEPT !.p2 = @ + 1, !.ins2 = FALSE]
            /\ UNCHANGED l
 
 Join == /\ blk.on /\ blk.p1 = blk.n1 /\ blk.p2 = blk.n2
